@@ -494,4 +494,9 @@ func genC02(g *Gen) {
 	// (e) the real DiskWriter behind the real diff on a scratch directory (see c05.go)
 	c05LinkMeta(g, 0x0203)
 	genRecvCases(g, 0x0203, g.Vol(500, 8000), false)
+
+	// (f) the same twice: after a synchronisation, a second synchronisation of the unchanged
+	// source finds nothing to do (kind 0204)
+	c02ResyncDirected(g)
+	genRecvCases(g, 0x0204, g.Vol(300, 5000), false)
 }
